@@ -221,6 +221,12 @@ class CompilerState(CoderState):
     def add_bitmap_link(self):
         self.add_statement(StateMethodCall(get_func_name()))
 
+    def cancel_new_refvals(self):
+        # The new reference values are kept by the state at runtime (e.g. for marker
+        # operators), so the cancellation has to happen at runtime as well.
+        super(CompilerState, self).cancel_new_refvals()
+        self.add_statement(StateMethodCall(get_func_name()))
+
 
 class TemplateCompiler(Coder):
     """
